@@ -44,7 +44,9 @@ Class(e, i) ==
   LET ref == RefV(e, i)  o == ObsV(e.res[i])  impl == ImplV(e, i, Devs) IN
   IF ref = Un THEN "un"
   ELSE IF o = ref THEN (IF impl = o THEN "ok" ELSE "drift")
-  ELSE IF o = impl THEN "known"      \* impl # ref here, and Valid(.., {}) = ref: Devs accounts for it
+  \* impl # ref here, and Valid(.., {}) = ref, so Devs accounts for the difference; where the model
+  \* with Devs is itself undetermined ("un") it predicts nothing and either observation conforms
+  ELSE IF o = impl \/ impl = Un THEN "known"
   ELSE "violation"
 
 Report(n, e, i, c) ==
